@@ -366,7 +366,7 @@ for _pid, _ts in EXTRA2.items():
 # end-to-end composition client ∘ server (Rough/Props/E2E.lean)
 for _pid in ("C01", "C02", "C03", "C09"):
     PROPS[_pid]["extra_modules"] = sorted(set(PROPS[_pid].get("extra_modules", []) + ["Rough.Props.E2E"]))
-    PROPS[_pid]["theorems"] = PROPS[_pid]["theorems"] + ["Rough.Props.E2E.E2E_client_server"]
+    PROPS[_pid]["theorems"] = PROPS[_pid]["theorems"] + ["Rough.Props.E2E.E2E_client_server", "Rough.Props.E2E.E2E_client_loop"]
 
 # event-loop stream: process_events one call at a time against Model/EventLoop.lean
 _LOOP = {"args": ["evloop"], "shards_quick": 8, "shards_thorough": 16}
@@ -378,3 +378,16 @@ for _pid in ("C08", "C09", "C15", "C18", "C19"):
                             "arrivals between calls while a backlog exists, idle calls, 1..33 TCP connections pending behind one readiness event mixed with datagrams; after every call the replies per socket and "
                             "the connections answered are recorded. L1 = by the end every socket got exactly one reply per valid request, every connection the fixed HTTP response, no call answered more than 16*batch_size datagrams; "
                             "L2 = per call, reply destinations and connections answered equal Model/EventLoop.lean (edge-triggered readiness, backlog flag, 16-batch bound)")
+
+# event-loop theorems (Rough/Props/Loop.lean), attributed to the properties they extend
+LOOP_THMS = {
+    "C08": ["LOOP_service_refines", "LOOP_call_safe", "LOOP_run_safe", "LOOP_live_new", "LOOP_live_env", "LOOP_live_call", "LOOP_drains"],
+    "C09": ["LOOP_service_refines", "LOOP_plan_conserves", "LOOP_call_progress", "LOOP_drains"],
+    "C15": ["LOOP_hc_exactly_once", "LOOP_hc_once_strands", "LOOP_live_call", "LOOP_live_env"],
+    "C17": ["LOOP_recorder"],
+    "C18": ["LOOP_live_call", "LOOP_live_env", "LOOP_drains", "LOOP_noflag_strands", "LOOP_stuck"],
+    "C19": ["LOOP_plan_bounded", "LOOP_service_refines"],
+}
+for _pid, _ts in LOOP_THMS.items():
+    PROPS[_pid]["extra_modules"] = sorted(set(PROPS[_pid].get("extra_modules", []) + ["Rough.Props.Loop"]))
+    PROPS[_pid]["theorems"] = PROPS[_pid]["theorems"] + ["Rough.Props.Loop." + t for t in _ts]
